@@ -161,7 +161,7 @@ func VH_C13_programs3() { vProgram(3, 64, false) }
 //verif:check C13 stubs=logfs,logfs-osfile,logfs-glob reach=append,rollover,reopen,view-read,end desc="as VH_C13_programs3 plus close/reopen and views" bounds="programs of 4 operations incl. reopen and views; segment size 64" maxdec=4000
 func VH_C13_programs4() { vProgram(4, 64, true) }
 
-//verif:check C13 stubs=logfs,logfs-osfile,logfs-glob reach=append,reopen,back-removed,front-removed,view-read,end desc="programs starting from a 3-entry log (one or two segments) incl. close/reopen and views" bounds="preamble of 3 entries in 1 or 2 segments, then programs of 3 operations (Append, CommitN, RemoveLTE, RemoveGTE, Reset, reopen, view)" maxdec=3000
+//verif:check C13,C09 stubs=logfs,logfs-osfile,logfs-glob reach=append,reopen,back-removed,front-removed,view-read,end desc="programs starting from a 3-entry log (one or two segments) incl. close/reopen and views" bounds="preamble of 3 entries in 1 or 2 segments, then programs of 3 operations (Append, CommitN, RemoveLTE, RemoveGTE, Reset, reopen, view)" maxdec=3000
 func VH_C13_programs3_from3() { vProgramFrom(1+vChoice(2), 3, 64, true) }
 
 //verif:check C13 tier=thorough stubs=logfs,logfs-osfile,logfs-glob reach=append,rollover,reopen,view-read,end desc="deeper programs" bounds="programs of 5 operations incl. reopen and views; segment size 64" maxdec=6000
